@@ -65,7 +65,16 @@ def shape_of(g, X, Y, Z):
                 idx = sorted(order.index(v) for v in d)
                 contiguous = idx == list(range(idx[0], idx[0] + len(idx)))
                 derived = not id_std._is_marginal_of_joint(loc["identification"].estimand)
-                node["extra"] = f"[{min(len(d), 3)}{'d' if derived else 'j'}{'c' if contiguous else 'g'}{'s' if loc.get('ranges') else ''}]"
+                anc = {v: loc["graph"].ancestors_inclusive(v) for v in d}
+                chain = all(a in anc[b] or b in anc[a] for a in d for b in d)
+                node["extra"] = f"[{min(len(d), 3)}{'d' if derived else 'j'}{'c' if contiguous else 'g'}{'' if chain else 'u'}{'s' if loc.get('ranges') else ''}]"
+            elif node["line"] == "7" and "district_without_treatment" in loc:
+                gph, dwt = loc["graph"], loc["district_without_treatment"]
+                big = next(d for d in gph.districts() if dwt <= d)
+                derived = not id_std._is_marginal_of_joint(loc["identification"].estimand)
+                anc = {v: gph.ancestors_inclusive(v) for v in big}
+                chain = all(a in anc[b] or b in anc[a] for a in big for b in big)
+                node["extra"] = f"[{min(len(big), 4)}{'d' if derived else 'j'}{'c' if chain else 'u'}]"
             elif node["line"] == "6":
                 node["line"] = "5"       # raised at line 5
             elif node["line"] == "4":
